@@ -114,7 +114,7 @@ def main():
     eof = find_func(dflt, ["EOF"])
     eofret = one((n for n in ast.walk(eof) if isinstance(n, ast.Return)), "return in default EOF production")
     eof_value = ev(eofret.value)
-    dd = one((n for n in ast.walk(dflt) if isinstance(n, ast.Dict)), "default productions dict")
+    dd = one((n for n in ast.walk(dflt) if isinstance(n, ast.Dict) and n.keys), "default productions dict")
     dkeys = [k.value for k in dd.keys]
     if sorted(dkeys) != ["ATKEYWORD", "COMMENT", "EOF", "S"]:
         raise Refused("default productions are %s" % dkeys)
